@@ -1,6 +1,6 @@
 (* C02 — the property, clause by clause.  Only statements here; every proof is `exact lemma`. *)
 From Coq Require Import List String ZArith Bool.
-From V.C02 Require Import Lang Model Spec Wf Proofs.
+From V.C02 Require Import Lang Model Spec Wf Proofs Slots ProofsSlots.
 Import ListNotations.
 Open Scope string_scope.
 
@@ -87,6 +87,27 @@ Theorem callee_frame_is_fresh : forall cm funs n f vs g,
   end.
 Proof. exact (fun _ _ _ _ _ _ => eq_refl). Qed.
 Print Assumptions callee_frame_is_fresh.
+
+(* "each call gets a fresh slot vector indexed by parse-time variable index": the vector with the
+   function's variable table simulates the name-indexed frame ImplSem uses.  PARTIAL: proved for the
+   frame operations (fresh vector, read, write; distinct variables have distinct slots; a variable
+   outside the table is an error, never another variable's slot).  That ImplSem reaches frames only
+   through [rd]/[wr]/[bind_params] is by inspection of Model.v, and that the table covers a body is
+   recomputed for every generated function by the check ([covers], Run.check_case clause 6); the
+   whole interpreter is not re-proved over vectors. *)
+Theorem slot_vector_represents_frame_partial : forall vs,
+  vrel vs [] (vfresh vs) /\
+  (forall e vec x, vrel vs e vec -> mem x vs = true -> vrd vs vec x = Some (lookup x e)) /\
+  (forall e vec x v, vrel vs e vec -> mem x vs = true ->
+     exists vec', vwr vs vec x v = Some vec' /\ vrel vs (update x v e) vec') /\
+  (forall vec x v, mem x vs = false -> vwr vs vec x v = None).
+Proof.
+  exact (fun vs => conj (vrel_fresh vs) (conj (vrel_rd vs) (conj (vrel_wr vs) (vwr_unlisted vs)))).
+Qed.
+Print Assumptions slot_vector_represents_frame_partial.
+Theorem slots_distinct : forall x y vs i, index_of x vs = Some i -> index_of y vs = Some i -> x = y.
+Proof. exact index_of_inj. Qed.
+Print Assumptions slots_distinct.
 
 (* The refinement is FALSE outside [clean]; one witness per recorded defect class (each replayed
    on the real interpreter by the check: KNOWN_FINDINGS keys switch:fallthrough:* and
